@@ -535,3 +535,393 @@ def provides_users(rep, dmod, rule):
               'on every path declares directlyProvidedBy(object) - interface, then '
               'rejects interfaces still provided through the class (%s)' % okraise,
               node=f)
+
+
+# ---------------------------------------------------------------------------
+# C01: creation / installation / dispatch rules over path summaries
+
+def alloc_site(e):
+    """identity of a fresh container literal inside a resolved expression
+    (clone keeps source positions): two `[]` of different sites differ"""
+    if isinstance(e, ast.Call) and dotted(e.func) in ('tuple', 'list') and len(e.args) == 1:
+        e = e.args[0]
+    if isinstance(e, (ast.List, ast.Dict, ast.Set)) or (
+            isinstance(e, ast.Call) and dotted(e.func) in ('list', 'set', 'dict')
+            and not e.args):
+        return (getattr(e, 'lineno', None), getattr(e, 'col_offset', None))
+    return None
+
+
+def _calls(ps, name):
+    return [e for e in ps.events if e.kind == 'call' and dotted(e.r.func) == name]
+
+
+def implementedby_install(rep, mod, rule):
+    f = find_def(mod, 'implementedBy')
+    site = 'declarations.implementedBy'
+    ss = normal(summaries(f))
+    p_create, p_inst, p_ret = [], [], []
+    fresh = old = 0
+    DICT = "cls.__dict__.get('__implemented__')"
+    ATTR = "getattr(cls, '__implemented__', None)"
+    BUILTIN = 'BuiltinImplementationSpecifications.get(cls)'
+    for ps in ss:
+        named = _calls(ps, 'Implements.named')
+        ret = nt(ps.ret)
+        if not named:
+            # a lookup path: returns a specification that is already installed
+            if ret == DICT:
+                ok = ps.facts.get('isinstance(%s, Implements)' % DICT) is True
+            elif ret == BUILTIN:
+                ok = ps.facts.get('%s is None' % BUILTIN) is False
+            elif ret == ATTR:
+                ok = ps.facts.get('%s is None' % ATTR) is False
+            elif ret == '_empty':
+                ok = ps.facts.get('%s is None' % BUILTIN) is True and \
+                    ps.facts.get('EXCEPT(AttributeError)') is True
+            elif ret == '_implementedBy_super(cls)':
+                ok = ps.facts.get('isinstance(cls, super)') is True
+            elif ret.startswith('Declaration(*_normalizeargs('):
+                ok = ps.facts.get('EXCEPT(AttributeError)') is True
+            else:
+                ok = False
+            if not ok:
+                p_ret.append('a path without creation returns `%s`' % ret[:60])
+            if ps.stores():
+                p_ret.append('a lookup path stores %s' % repr(ps.stores()[0])[:60])
+            continue
+        if len(named) != 1:
+            p_create.append('%d specifications created on a path' % len(named))
+            continue
+        c = named[0].r
+        spec = nt(c)
+        star = [a.value for a in c.args if isinstance(a, ast.Starred)]
+        if len(c.args) != 2 or len(star) != 1 or nt(c.args[0]) != '_implements_name(cls)':
+            p_create.append('created as `%s`' % spec[:80])
+            continue
+        b = star[0]
+        inh = [e for e in ps.stores() if nt(e.r) == '%s.inherit' % spec]
+        if isinstance(b, (ast.ListComp, ast.GeneratorExp)):
+            g = b.generators[0]
+            src, d = iter_polarity(g.iter)
+            okb = len(b.generators) == 1 and not g.ifs and d == 'fwd' and \
+                nt(src) in ('cls.__bases__', '()') and isinstance(g.target, ast.Name) and \
+                nt(b.elt) == 'implementedBy(%s)' % g.target.id
+            if not okb:
+                p_create.append('bases of a new specification: `%s` (required: the '
+                                'specifications of cls.__bases__, in order)' % nt(b)[:80])
+            if nt(src) == 'cls.__bases__':
+                fresh += 1
+            if ps.facts.get('%s is None' % DICT) is not True:
+                p_create.append('a fresh specification replaces an existing declaration')
+            if [nt(e.val) for e in inh] != ['cls']:
+                p_create.append('inherit of a fresh specification: %s (required cls)'
+                                % [nt(e.val) for e in inh])
+        elif nt(b).startswith('_normalizeargs(('):
+            old += 1
+            if [nt(e.val) for e in inh] != ['None']:
+                p_create.append('inherit of an old-style declaration: %s (required None)'
+                                % [nt(e.val) for e in inh])
+            if not [e for e in ps.dels() if nt(e.r) == 'cls.__implemented__']:
+                p_create.append('old-style declaration not removed')
+        else:
+            p_create.append('bases of a new specification: `%s`' % nt(b)[:80])
+        # installation
+        st = [e for e in ps.stores() if nt(e.r) == 'cls.__implemented__']
+        if [nt(e.val) for e in st] != [spec]:
+            p_inst.append('cls.__implemented__ stores: %s' % [nt(e.val)[:40] for e in st])
+        bt = [e for e in ps.stores() if nt(e.r) == 'BuiltinImplementationSpecifications[cls]']
+        if ps.facts.get('EXCEPT(TypeError)') is True:
+            if [nt(e.val) for e in bt] != [spec] or \
+                    ps.facts.get('isinstance(cls, type)') is not True:
+                p_inst.append('a type that rejects attributes is not registered in '
+                              'the builtin table')
+        else:
+            if bt:
+                p_inst.append('builtin table written although the class took the '
+                              'attribute')
+            pb = [e for e in ps.stores() if nt(e.r) == 'cls.__providedBy__']
+            has = ps.facts.get("hasattr(cls, '__providedBy__')")
+            if (has is False) != bool(pb) or any(
+                    nt(e.val) != 'objectSpecificationDescriptor' for e in pb):
+                p_inst.append('__providedBy__ descriptor: hasattr=%s, stores %s'
+                              % (has, [nt(e.val)[:30] for e in pb]))
+            pv = [e for e in ps.stores() if nt(e.r) == 'cls.__provides__']
+            need = ps.facts.get('isinstance(cls, type)') is True and \
+                ps.facts.get("'__provides__' in cls.__dict__") is False
+            if need != bool(pv) or any(
+                    not nt(e.val).startswith('ClassProvides(cls, ') for e in pv):
+                p_inst.append('__provides__ descriptor: needed=%s, stores %s'
+                              % (need, [nt(e.val)[:40] for e in pv]))
+        if ret != spec:
+            p_ret.append('a creating path returns `%s`' % ret[:60])
+    if not fresh:
+        p_create.append('no path builds a specification from cls.__bases__')
+    rep.check(rule, site, not p_create,
+              'a new class specification inherits the specifications of '
+              'cls.__bases__ in order and records inherit = cls; an old-style '
+              'declaration becomes a specification with inherit = None '
+              '(%d/%d paths)' % (fresh, old) if not p_create else
+              {'problems': sorted(set(p_create))[:3]}, construct='create', node=f)
+    rep.check(rule, site, not p_inst,
+              'the new specification is installed as cls.__implemented__ with '
+              'the __providedBy__/__provides__ descriptors where missing, or '
+              'registered in the builtin table when the type rejects attributes'
+              if not p_inst else {'problems': sorted(set(p_inst))[:3]},
+              construct='install', node=f)
+    rep.check(rule, site, not p_ret,
+              'every path returns the class\'s own live specification (the '
+              'installed one, the one just created, or _empty)'
+              if not p_ret else {'problems': sorted(set(p_ret))[:3]},
+              construct='returns', node=f)
+
+
+def directly_provides_dispatch(rep, mod, rule):
+    d = find_def(mod, 'directlyProvides')
+    probs = []
+    kinds = set()
+    NORM = '_normalizeargs(interfaces)'
+    for ps in normal(summaries(d)):
+        st = [e for e in ps.stores() if nt(e.r) == 'object.__provides__']
+        if len(st) != 1:
+            probs.append('%d stores of object.__provides__ on a path' % len(st))
+            continue
+        v = st[0].val
+        sub = [(c, t) for c, t, p in ps.order
+               if c.startswith('issubclass(') and c.endswith(', type)')]
+        if not sub:
+            probs.append('class/instance not distinguished')
+            continue
+        c, t = sub[-1]
+        X = c[len('issubclass('):-len(', type)')]
+        if X not in ("getattr(object, '__class__', None)", 'type(object)'):
+            probs.append('class of the object taken as `%s`' % X[:50])
+        want = ('ClassProvides(object, %s, *%s)' if t else 'Provides(%s, *%s)') \
+            % ((X, NORM))
+        kinds.add(t)
+        if nt(v) != want:
+            probs.append('%s gets `%s`' % ('a class' if t else 'an instance', nt(v)[:70]))
+        if len(_calls(ps, '_normalizeargs')) != 1:
+            probs.append('arguments normalised %d times' % len(_calls(ps, '_normalizeargs')))
+    if kinds != {True, False}:
+        probs.append('dispatch kinds seen: %s' % sorted(kinds))
+    rep.check(rule, 'declarations.directlyProvides', not probs,
+              'classes get ClassProvides(object, cls, ...), instances '
+              'Provides(cls, ...); arguments normalised once for both branches'
+              if not probs else {'problems': sorted(set(probs))[:3]},
+              construct='dispatch', node=d)
+    os_ = find_def(mod, 'ObjectSpecificationDescriptor.__get__')
+    table = {}
+    probs = []
+    for ps in normal(summaries(os_)):
+        none = ps.facts.get('inst is None')
+        exc = ps.facts.get('EXCEPT(AttributeError)')
+        other = [c for c, t, p in ps.order if c.startswith('EXCEPT(') and
+                 c != 'EXCEPT(AttributeError)']
+        if other:
+            probs.append('swallows %s' % other[0])
+        key = 'class' if none else ('missing' if exc else 'has')
+        table.setdefault(key, set()).add(nt(ps.ret))
+    want = {'class': {'getObjectSpecification(cls)'}, 'has': {'inst.__provides__'},
+            'missing': {'implementedBy(cls)'}}
+    rep.check(rule, 'ObjectSpecificationDescriptor.__get__', table == want and not probs,
+              '__providedBy__: class access -> the class\'s own spec; instance '
+              '-> its __provides__, else (AttributeError only) implementedBy(cls): %s %s'
+              % ({k: sorted(v) for k, v in table.items()}, probs),
+              construct='descriptor', node=os_)
+
+
+def class_forms(rep, mod, rule, rule_elide):
+    """classImplementsOnly / classImplements / classImplementsFirst and the
+    decorators, over path summaries"""
+    SPEC = 'implementedBy(cls)'
+    f = find_def(mod, 'classImplementsOnly')
+    probs = []
+    ss = normal(summaries(f))
+    for ps in ss:
+        call = [e for e in ps.events if e.kind == 'call' and
+                nt(e.r) == '_classImplements_ordered(%s, interfaces, ())' % SPEC]
+        if len(call) != 1:
+            probs.append('does not delegate to _classImplements_ordered(spec, '
+                         'interfaces, ()) exactly once')
+            continue
+        k = ps.index(call[0])
+        for attr, val in (('declared', '()'), ('inherit', 'None'), ('__bases__', '()')):
+            sts = [e for e in ps.stores() if nt(e.r) == '%s.%s' % (SPEC, attr)]
+            if not sts or nt(sts[-1].val) != val or ps.index(sts[-1]) > k:
+                probs.append('%s not reset to %s before re-declaring' % (attr, val))
+    rep.check(rule, 'declarations.classImplementsOnly', bool(ss) and not probs,
+              'clears declared, inherit and __bases__ of the class\'s own '
+              'specification before re-declaring (nothing inherited survives, '
+              'old bases cannot elide new declarations)' if not probs else
+              {'problems': sorted(set(probs))[:3]}, construct='only-reset', node=f)
+
+    f = find_def(mod, 'classImplements')
+    probs = []
+    IF = 'tuple(_normalizeargs(interfaces))'
+    E = 'EACH(%s)' % IF
+    kinds = set()
+    ss = normal(summaries(f))
+    for ps in ss:
+        call = _calls(ps, '_classImplements_ordered')
+        if len(call) != 1 or len(call[0].r.args) != 3 or nt(call[0].r.args[0]) != SPEC \
+                or ps.events[-1] is not call[0]:
+            probs.append('does not end in one _classImplements_ordered(spec, before, after)')
+            continue
+        B, A = alloc_site(call[0].r.args[1]), alloc_site(call[0].r.args[2])
+        if B is None or A is None or A == B:
+            probs.append('before/after are not two separately built sequences')
+            continue
+        its = iterated(ps)
+        apps = [e for e in ps.events if e.kind == 'call' and
+                isinstance(e.r.func, ast.Attribute) and
+                e.r.func.attr in ('append', 'insert', 'extend', 'add')]
+        if IF not in its and nt(_parse(IF)) not in its and \
+                '_normalizeargs(interfaces)' not in its:
+            if apps:
+                probs.append('classifies without an interface')
+            continue
+        src = [i for i in its if i in (IF, '_normalizeargs(interfaces)')][0]
+        Ex = 'EACH(%s)' % src
+        if len(apps) != 1 or apps[0].r.func.attr != 'append' or \
+                [nt(a) for a in apps[0].r.args] != [Ex]:
+            probs.append('an interface is classified %d times' % len(apps))
+            continue
+        where = alloc_site(apps[0].r.func.value)
+        ext = [t for c, t, p in ps.order
+               if c == '%s.extends(EACH(%s.declared))' % (Ex, SPEC)]
+        other = [c for c in each_conditions(ps, src) if 'extends(EACH(' not in c]
+        if other:
+            probs.append('placement depends on `%s`' % other[0][:60])
+        front = bool(ext) and ext[-1]
+        kinds.add(front)
+        if where != (B if front else A):
+            probs.append('an interface that %s an already declared one goes %s'
+                         % ('extends' if front else 'does not extend',
+                            'to the end' if front else 'in front'))
+    for lp in walk_local(f):
+        if isinstance(lp, ast.For):
+            b, d = iter_polarity(lp.iter, f)
+            if d != 'fwd':
+                probs.append('walks `%s` backwards' % norm_src(lp.iter)[:40])
+    if kinds != {True, False}:
+        probs.append('classification kinds seen: %s' % sorted(kinds))
+    rep.check(rule, 'declarations.classImplements', bool(ss) and not probs,
+              'new interfaces extending an already declared one go in front, '
+              'the others at the end; then the ordered helper runs'
+              if not probs else {'problems': sorted(set(probs))[:3]},
+              construct='classify', node=f)
+
+    f = find_def(mod, 'classImplementsFirst')
+    ss = normal(summaries(f))
+    ok = bool(ss) and all(
+        [nt(e.r) for e in _calls(ps, '_classImplements_ordered')] ==
+        ['_classImplements_ordered(%s, (iface,), ())' % SPEC] for ps in ss)
+    rep.check(rule, 'declarations.classImplementsFirst', ok,
+              'declares the interface in front', construct='first', node=f)
+
+    imp = find_def(mod, 'implementer.__call__')
+    probs = []
+    kinds = set()
+    for ps in normal(summaries(imp)):
+        t = ps.facts.get('isinstance(ob, type)')
+        ci = [nt(e.r) for e in _calls(ps, 'classImplements')]
+        kinds.add(t)
+        if t is True:
+            if ci != ['classImplements(ob, *self.interfaces)'] or ps.stores():
+                probs.append('a class does not go through classImplements(ob, '
+                             '*self.interfaces)')
+        elif t is False:
+            if ci:
+                probs.append('a non-class goes through classImplements')
+        else:
+            probs.append('class test is not isinstance(ob, type): %s'
+                         % [c for c, t, p in ps.order][:2])
+        if nt(ps.ret) != 'ob':
+            probs.append('returns `%s`' % nt(ps.ret)[:40])
+    if kinds != {True, False}:
+        probs.append('dispatch kinds %s' % sorted(kinds, key=str))
+    rep.check(rule, 'declarations.implementer.__call__', not probs,
+              'every class (any metaclass: isinstance(ob, type)) goes through '
+              'classImplements, which keeps inheritance and earlier declarations'
+              if not probs else {'problems': sorted(set(probs))[:3]},
+              construct='class-branch', node=imp)
+    io = find_def(mod, 'implementer_only.__call__')
+    ss = normal(summaries(io))
+    ok = bool(ss) and all(
+        [nt(e.r) for e in _calls(ps, 'classImplementsOnly')] ==
+        ['classImplementsOnly(ob, *self.interfaces)'] and nt(ps.ret) == 'ob' for ps in ss)
+    rep.check(rule, 'declarations.implementer_only.__call__', ok,
+              'implementer_only -> classImplementsOnly', construct='only', node=io)
+
+    # instance declarations drop exactly what the class already implies
+    h = find_def(mod, 'Declaration._add_interfaces_to_cls')
+    probs = []
+    IMP = 'implementedBy(cls)'
+    for ps in normal(summaries(h)):
+        r = ps.ret
+        parts = None
+        if isinstance(r, ast.BinOp) and isinstance(r.op, ast.Add):
+            parts = (r.left, r.right)
+        elif isinstance(r, ast.Tuple) and len(r.elts) == 2 and \
+                isinstance(r.elts[0], ast.Starred):
+            parts = (r.elts[0].value, ast.Tuple(elts=[r.elts[1]], ctx=ast.Load()))
+        if parts is None or nt(parts[1]) != '(%s,)' % IMP:
+            probs.append('returns `%s` (required: kept interfaces + the class '
+                         'specification last)' % nt(r)[:80])
+            continue
+        kept = parts[0]
+        if isinstance(kept, ast.Call) and dotted(kept.func) in ('tuple', 'list') and kept.args:
+            kept = kept.args[0]
+        okk = False
+        if isinstance(kept, (ast.ListComp, ast.GeneratorExp)) and len(kept.generators) == 1:
+            g = kept.generators[0]
+            src, d = iter_polarity(g.iter)
+            i = g.target.id if isinstance(g.target, ast.Name) else None
+            okk = nt(src) == 'interfaces' and d == 'fwd' and nt(kept.elt) == i and \
+                [nt(c) for c in g.ifs] == ['not %s.isOrExtends(%s)' % (IMP, i)]
+        elif nt(kept) == '[]':
+            # loop form: interfaces walked forward, kept iff not implied
+            src = 'interfaces'
+            e = 'EACH(%s)' % src
+            apps = [x for x in ps.events if x.kind == 'call' and
+                    nt(x.r) == '[].append(%s)' % e]
+            if src in iterated(ps):
+                t = ps.facts.get('%s.isOrExtends(%s)' % (IMP, e))
+                okk = t is not None and (t is False) == bool(apps) and len(apps) <= 1
+            else:
+                okk = not apps
+        if not okk:
+            probs.append('kept part `%s`' % nt(parts[0])[:90])
+    rep.check(rule_elide, 'Declaration._add_interfaces_to_cls', not probs,
+              'instance declarations drop exactly what the class already '
+              'implies, in order, and end with the class specification'
+              if not probs else {'problems': sorted(set(probs))[:3]},
+              construct='elide:instance', node=h)
+
+
+def super_cache_owner(rep, mod, rule):
+    sup = find_def(mod, '_implementedBy_super')
+    p = sup.args.args[0].arg
+    OWNER = 'implementedBy(%s.__self_class__)' % p
+    probs = []
+    n = 0
+    for ps in normal(summaries(sup)):
+        for e in ps.events:
+            txt = None
+            if e.kind == 'store':
+                txt = nt(e.r)
+            elif e.kind == 'call':
+                txt = nt(e.r)
+            if txt and '_super_cache' in txt:
+                n += 1
+                if ('%s._super_cache' % OWNER) not in txt:
+                    probs.append('cache reached through `%s`' % txt[:70])
+        r = nt(ps.ret)
+        if '_super_cache' in r and ('%s._super_cache' % OWNER) not in r and \
+                'WeakKeyDictionary()' not in r:
+            probs.append('returns from `%s`' % r[:70])
+    rep.check(rule, 'declarations._implementedBy_super', not probs,
+              'the super-spec cache belongs to the specification of the concrete '
+              'type (%s)' % OWNER if not probs else {'problems': sorted(set(probs))[:3]},
+              construct='super-cache', node=sup)
